@@ -320,12 +320,26 @@ def gen_acts(rng):
     env = dict(base)
     acts = []
     force = rng.random() < 0.5
-    for _ in range(rng.randint(1, 5)):
+    saved = []          # what pushStack("env") saved (the generator's own copy of the expected environment)
+    for _ in range(rng.randint(1, 6)):
         k = rng.choice(names) if rng.random() < 0.7 else gen_name(rng)
         if k in PROTECTED and rng.random() < 0.8:
             continue
         r = rng.random()
         fwd = rng.random() < 0.55
+        if rng.random() < 0.25:
+            # an optional / nested setup: pushStack("env") ... then popStack (it failed: changes thrown away) or dropStack
+            if saved and rng.random() < 0.6:
+                if rng.random() < 0.6:
+                    env = saved.pop()
+                    acts.append({"op": "pop"})
+                else:
+                    saved.pop()
+                    acts.append({"op": "drop"})
+            else:
+                saved.append(dict(env))
+                acts.append({"op": "push"})
+            continue
         if rng.random() < 0.12:
             ak, av = rng.choice([("ll", "ls -l"), ("e", "echo hi"), ("gg", "git grep \"$@\""), ("KEEP", "true")])
             acts.append({"op": "alias", "fwd": fwd, "k": ak, "v": av})
@@ -357,10 +371,11 @@ def gen_acts(rng):
             acts.append({"op": "unset", "fwd": fwd, "k": k})
             if fwd:
                 env.pop(k, None)
-    if not acts:
+    if not [a for a in acts if "fwd" in a]:
         acts.append({"op": "envSet", "fwd": False, "k": names[0], "text": "x", "v": "x"})
     return {"kind": "acts", "base": base, "acts": acts, "force": force,
-            "opts": {"shell": "sh", "noaction": False, "verbose2": False, "isEups": False, "fwd": acts[-1]["fwd"]}}
+            "opts": {"shell": "sh", "noaction": False, "verbose2": False, "isEups": False,
+                     "fwd": [a for a in acts if "fwd" in a][-1]["fwd"]}}
 
 
 def weird_dirname(rng):
@@ -746,10 +761,15 @@ def impl_acts(case):
     _set_environ(case["base"])
     E.oldEnviron = os.environ.copy()
     E.aliases, E.oldAliases = {}, {}
+    E._stacks["env"] = []
     E.shell, E.noaction, E.verbose, E.quiet, E.force = "sh", False, 0, 1, case["force"]
+    env_obj = os.environ            # popStack("env") rebinds os.environ to a plain dict: put the real object back afterwards
 
     def fake_setup(productName, version, fwd, productRoot=None, tablefile=None):
         for a in case["acts"]:
+            if a["op"] in ("push", "pop", "drop"):
+                {"push": E.pushStack, "pop": E.popStack, "drop": E.dropStack}[a["op"]]("env")
+                continue
             if a["op"] == "envSet":
                 act = Action("t.table", "envSet", [a["k"], a["text"]], {})
             elif a["op"] == "alias":
@@ -765,9 +785,12 @@ def impl_acts(case):
         with _quiet(), contextlib.redirect_stdout(io.StringIO()):
             cmds = app.setup("prod", eupsenv=E, fwd=o["fwd"])
     except Exception as ex:  # noqa
+        os.environ = env_obj
         return {"exc": type(ex).__name__}
-    return {"cmds": cmds, "old": [list(x) for x in E.oldEnviron.items()], "cur": [list(x) for x in os.environ.items()],
-            "aliases": [list(x) for x in E.aliases.items()], "oldAliases": [list(x) for x in E.oldAliases.items()]}
+    res = {"cmds": cmds, "old": [list(x) for x in E.oldEnviron.items()], "cur": [list(x) for x in os.environ.items()],
+           "aliases": [list(x) for x in E.aliases.items()], "oldAliases": [list(x) for x in E.oldAliases.items()]}
+    os.environ = env_obj
+    return res
 
 
 def _stack_request(env_before, req):
@@ -1157,7 +1180,9 @@ def model_request(case):
     if k == "acts":
         acts = []
         for a in case["acts"]:
-            if a["op"] == "alias":
+            if a["op"] in ("push", "pop", "drop"):
+                acts.append({"op": a["op"]})
+            elif a["op"] == "alias":
                 acts.append({"op": "alias", "force": case["force"], "fwd": a["fwd"], "k": a["k"], "v": a["v"]})
             elif a["op"] == "unset":
                 if a["fwd"]:
@@ -1620,6 +1645,8 @@ def evaluate(ctx, cases):
             continue
         o = c["opts"]
         ctx.hist("%s:shell=%s%s" % (kind, o["shell"], "/noaction" if o["noaction"] else ""))
+        if kind == "acts" and any(a["op"] == "pop" for a in c["acts"]):
+            ctx.hist("acts:changes-thrown-away-by-popStack")
         if kind == "emit" and o["shell"] == "sh" and not o["noaction"] and not o["isEups"]:
             gone = [k for k, _ in c["old"] if k not in dict(c["new"])]
             if any(k not in PROTECTED and any(k.upper().find(p) >= 0 or p.startswith(k.upper()) for p in PROTECTED) for k in gone):
@@ -1763,6 +1790,9 @@ def check_floors(ctx):
     if h.get("delta:quoted-value-with-shell-special-text", 0) < 150:
         raise common.InfraError("degenerate distribution: %d deltas write a quoted value that also holds $NAME, a backquote, a "
                                 "backslash or a double quote" % h.get("delta:quoted-value-with-shell-special-text", 0))
+    if h.get("acts:changes-thrown-away-by-popStack", 0) < 10:
+        raise common.InfraError("degenerate distribution: %d action sequences with changes thrown away by popStack"
+                                % h.get("acts:changes-thrown-away-by-popStack", 0))
     if h.get("csh:in-claim", 0) < 40 or h.get("emit:zsh-text-sourced", 0) < 20:
         raise common.InfraError("degenerate distribution: %d csh texts inside the claim, %d zsh texts sourced"
                                 % (h.get("csh:in-claim", 0), h.get("emit:zsh-text-sourced", 0)))
